@@ -144,6 +144,9 @@ impl Property for C01 {
         }
         Ok(j)
     }
+    fn in_domain(&self, case: &Value) -> bool {
+        case_settings_in_domain(case)
+    }
     fn predicate(&self, name: &str, case: &Value, v: &Violation) -> bool {
         super::predicates::check(name, case, v)
     }
